@@ -1684,8 +1684,12 @@ fn gen(a: &Args, tr: &mut Trace) {
             }
         }
         let mut cells: Vec<String> = vec![];
-        for x in w.abis[c].endpoints.iter() {
-            cells.push(format!("abi {c} {} owner={} ro={}", x.name, x.only_owner as u8, is_readonly(x) as u8));
+        // the inventory lines come first: the model learns from them the ABI-default classification of endpoints its
+        // table does not list (a new getter, a new #[only_owner] setter) before it has to answer their cells
+        let inventory: Vec<String> = w.abis[c].endpoints.iter()
+            .map(|x| format!("abi {c} {} owner={} ro={}", x.name, x.only_owner as u8, is_readonly(x) as u8)).collect();
+        for line in inventory {
+            w.exec(tr, &line);
         }
         for e in eps.iter() {
             let class = class_of(&w.abis[c], c, e);
